@@ -6,6 +6,7 @@ mod histrec;
 mod ops;
 mod project;
 mod world;
+mod xlsxfaults;
 
 use serde_json::{json, Value};
 use std::collections::HashMap;
@@ -68,6 +69,8 @@ fn main() {
         "tokens" => cases::tokens(&gets(&m, "in", ""), &gets(&m, "out", "/tmp/icverif"), getb(&m, "thorough"), geti(&m, "skip", 0) as usize),
         "finite" => cases::finite(&gets(&m, "in", ""), &gets(&m, "out", "/tmp/icverif"), getb(&m, "thorough"), geti(&m, "skip", 0) as usize),
         "evalone" => cases::evalone(&gets(&m, "f", "")),
+        "xlsxvocab" => xlsxfaults::vocab(&gets(&m, "out", "/tmp/icverif")),
+        "xlsxfaults" => xlsxfaults::run(&gets(&m, "in", ""), &gets(&m, "out", "/tmp/icverif"), geti(&m, "skip", 0) as usize, geti(&m, "seed", 1) as u64),
         "runprog" => histrec::run_program(&gets(&m, "in", ""), &gets(&m, "out", "/tmp/icverif")),
         "histbeh" => histrec::replay_behaviours(
             &gets(&m, "in", ""),
